@@ -492,3 +492,6 @@ package main
 // mutex forgets what was known about them)
 //@ guarded_by RuntimeState.Mutex : RuntimeState.vipPushCookie RuntimeState.localAuthData RuntimeState.pendingOauth2  #C16.state-mutex @C16
 //@ guarded_by RuntimeState.totpLocalTateLimitMutex : RuntimeState.totpLocalRateLimit  #C16.totp-mutex @C16
+// the configuration loader builds the RuntimeState before any listener or goroutine that shares it exists
+//@ func loadVerifyConfigFile
+//@   lockexempt #C16.state-not-yet-shared
